@@ -26,8 +26,8 @@ echo "build with change: exit $rb"
 (cd $wt && go test -vet=off -count=1 -run 'Demo' ./$demodir/ >/dev/null 2>&1); r1=$?
 echo "demo with change: exit $r1 (expect non-zero)"
 rm $wt/$demopath
-(cd $wt && go test -vet=off -count=1 -timeout 25m ./... 2>&1 | grep -v "no test files" | grep -v "^ok" | head -20); 
-(cd $wt && go test -vet=off -count=1 -timeout 25m ./... >/dev/null 2>&1); rs=$?
+(cd $wt && go test -vet=off -count=1 -timeout 25m ./... > $log.suite 2>&1); rs=$?
+grep -v "no test files" $log.suite | grep -v "^ok" | head -20; rm -f $log.suite
 echo "existing suite with change: exit $rs (expect 0)"
 } > $log 2>&1
 cat $log
